@@ -370,6 +370,10 @@ def main():
         else:
             verdicts.append((classify_output(text), j))
 
+    if spec.get("death_is_violation"):
+        # the property is about crashes / unbounded allocation: a dead process with a journalled input is a violation
+        verdicts = [("crash" if v in ("oom", "other") and os.path.exists(os.path.join(j["cwd"], "last_input.json")) else v, j)
+                    for v, j in verdicts]
     violation_jobs = [j for v, j in verdicts if v in ("fail", "crash")]
     nviol = len(violation_jobs) + len(fuzz_viol)
     notes = list(fuzz_notes)
@@ -399,6 +403,11 @@ def main():
                 os.makedirs(tdir, exist_ok=True)
                 dst = os.path.join(tdir, "seed%d-%s" % (seed, os.path.basename(f)))
                 shutil.copyfile(f, dst)
+                replay_path = replay_path or dst
+            li = os.path.join(j["cwd"], "last_input.json")
+            if not fails and os.path.exists(li):
+                dst = os.path.join(rdir, "seed%d-%s-last_input.json" % (seed, os.path.basename(j["cwd"])))
+                shutil.copyfile(li, dst)
                 replay_path = replay_path or dst
             dst = os.path.join(rdir, "seed%d-%s-output.log" % (seed, os.path.basename(j["cwd"])))
             shutil.copyfile(j["log"], dst)
